@@ -137,11 +137,11 @@ def oracle(ctx):
         ctx.ob("ROLE", G, "drift store", len(dd) == 1, "")
         for d in dd:
             site = c01._site_pc_ev(tr, d)
-            acc = [e for e in tr.calls() if e.callee == ("lib", "sklearn.metrics.accuracy_score") and e.func.qualname == G]
+            acc = [e for e in tr.calls() if e.callee == ("lib", "sklearn.metrics.accuracy_score") and q.within(e, G, ("set_reference",))]
             ok = len(acc) == 1 and q.has_guard(site, T.mk_cmp(">", rd("acc") - acc[0].result, A("sensitivity") * rd("acc_std"))) and site.pc[: len(blk)] == blk
             ctx.ob("GRD", G, "drift iff reference accuracy - accuracy on the labelled samples > sensitivity * acc_std, inside the confirmation block", ok,
                    "; ".join(q.short(g, 100) for g in guards(site)[-2:]), site)
-            pr = [e for e in tr.calls() if e.callee[0] == "mcall" and e.callee[1] == "predict" and e.func.qualname == G]
+            pr = [e for e in tr.calls() if e.callee[0] == "mcall" and e.callee[1] == "predict" and q.within(e, G, ("set_reference",))]
             ok = len(pr) == 1 and pr[0].recv == A("classifier") and acc and acc[0].args[1] == pr[0].result
             ctx.ob("FRM", G, "accuracy of the deployed classifier on the labelled samples", ok, "")
             if sr:
@@ -236,7 +236,7 @@ def extras(ctx):
         ctx.ob("FRM", S_, "%s is a private copy of %s" % (attr, what), len(st) == 1 and st[0].value == want, q.short(st[0].value, 120) if st else "no store", st[0] if st else None)
     # k-fold statistics: a fresh clone is fitted on the training part of every fold, and judged on the held-out part
     site = "MD3.calculate_distribution_statistics"
-    fit = [e for e in ts.calls() if e.callee[0] == "mcall" and e.callee[1] == "fit" and e.func.qualname == site]
+    fit = [e for e in ts.calls() if e.callee[0] == "mcall" and e.callee[1] == "fit" and q.stack_has(e, site)]
     cl = [e for e in ts.calls() if e.callee == ("lib", "sklearn.base.clone") or (e.callee[0] == "lib" and e.callee[1].endswith(".clone"))]
     ok = len(fit) == 1 and len(cl) == 1 and cl[0].args == (A("classifier"),)
     split_ok = False
@@ -247,7 +247,7 @@ def extras(ctx):
             T.mentions(fit[0].args[0], lambda z: z[0] == "cmp" and z[1] == "!=") and a1 is not None and T.mentions(a1, lambda z: z[0] == "cmp" and z[1] == "==")
         ok = any((p.cond.single_atom() or ("",))[0] == "inloop" for p in fit[0].pc)
     ctx.ob("MC", site, "a clone of the classifier is fitted on the training part (features, target) of every fold", ok and split_ok, "", fit[0] if fit else None)
-    sig = [e for e in ts.calls() if e.callee[0] == "dynamic" and e.callee[1] == A("margin_calculation_function") and e.func.qualname == site]
+    sig = [e for e in ts.calls() if e.callee[0] == "dynamic" and e.callee[1] == A("margin_calculation_function") and q.stack_has(e, site)]
     if sig and fit:
         ctx.ob("ORD", site, "the fold's signals are computed with the clone fitted for that fold", fit[0].seq < sig[0].seq and q.unmut(sig[0].args[2]) == q.unmut(fit[0].recv) or
                (fit[0].seq < sig[0].seq and (q.unmut(sig[0].args[2]).single_atom() or ("",))[0] in ("loopvar", "call")), q.short(sig[0].args[2], 80), sig[0])
